@@ -5,11 +5,14 @@ from __future__ import annotations
 
 import os
 import re
+import sys
 from typing import Any
 
 from vlib import c15_build, c15_gen as g, common
 
 _loaded: dict[str, Any] = {}
+if hasattr(sys, "set_int_max_str_digits"):
+    sys.set_int_max_str_digits(0)  # witnesses carry reprs of big ints
 
 
 def probe(source: str, wd: str) -> dict[str, Any]:
@@ -109,16 +112,24 @@ def _san_new_text(path: str | None, pos: int) -> tuple[str, int]:
         return f.read(20000).decode("utf-8", "replace"), size
 
 
+def _parse_args(reprs: list[str]) -> tuple[Any, ...]:
+    import math
+    return tuple(eval(r, {"__builtins__": {}}, {"inf": math.inf, "nan": math.nan, "True": True, "False": False})
+                 for r in reprs)
+
+
 def drive(specs: list[dict[str, Any]], source: str, builds: dict[str, list[str]], boundary: bool, n_random: int,
-          tag: str, marker: str | None = None, san_log: str | None = None, max_witness: int = 2) -> dict[str, Any]:
+          tag: str, marker: str | None = None, san_log: str | None = None, max_witness: int = 2, thin: int = 1,
+          explicit: list[list[str]] | None = None) -> dict[str, Any]:
     """For every function and operand tuple: interpreter outcome -> demanded outcome -> compare every build.
 
-    builds: {config: [modname, so_path]}. Returns per-function statistics and mismatches (with witnesses)."""
+    builds: {config: [modname, so_path]}. Returns per-function statistics, mismatches and sanitizer reports
+    (each with a self-contained witness). `thin`>1 keeps every thin-th pair of the boundary cross product."""
     ns = _ref_ns(source)
     mods = {cfg: _ext(mn, so) for cfg, (mn, so) in builds.items()}
     san_path = f"{san_log}.{os.getpid()}" if san_log else None
-    san_pos = os.path.getsize(san_path) if san_path and os.path.exists(san_path) else 0
-    out: dict[str, Any] = {"funcs": {}, "mismatches": [], "san": []}
+    san_pos = [os.path.getsize(san_path) if san_path and os.path.exists(san_path) else 0]
+    out: dict[str, Any] = {"funcs": {}, "mismatches": [], "san": [], "samples": []}
     expectation, same, rep_class, admissible = g.expectation, g.same, g.rep_class, g.admissible
     for spec in specs:
         name = spec["name"]
@@ -131,13 +142,21 @@ def drive(specs: list[dict[str, Any]], source: str, builds: dict[str, list[str]]
             with open(marker, "w") as f:
                 f.write(name)
         pt = spec["pt"]
+        check_adm = spec["op"] in ("<<", "**")
         cells: dict[str, int] = {}
         evals = free = skipped = 0
         seen_keys: dict[str, int] = {}
+        n_san = 0
+
+        def witness(args: tuple[Any, ...], exp: Any, want: Any, got: Any, cfg: str) -> dict[str, Any]:
+            return {"function": name, "config": cfg, "args": [_jsonable(a) for a in args],
+                    "args_repr": [repr(a) for a in args], "interpreter": [exp[0], _jsonable(exp[1]), repr(exp[1])],
+                    "demanded": [want[0], _jsonable(want[1]), repr(want[1])],
+                    "compiled": [got[0], _jsonable(got[1]), repr(got[1])]}
 
         def one(args: tuple[Any, ...]) -> None:
-            nonlocal evals, free, skipped
-            if not admissible(spec, args):
+            nonlocal evals, free, skipped, n_san
+            if check_adm and not admissible(spec, args):
                 skipped += 1
                 return
             exp = _call(ref, args)
@@ -146,17 +165,27 @@ def drive(specs: list[dict[str, Any]], source: str, builds: dict[str, list[str]]
                 return
             want = expectation(spec, args, exp)
             rc = ",".join([rep_class(t, v) for t, v in zip(pt, args)])
-            if want[0] == "free":
-                free += len(fns)
-                ck = rc + "|free"
-                cells[ck] = cells.get(ck, 0) + 1
-                for _, fn in fns:
-                    _call(fn, args)
-                return
-            ck = rc + "|" + ("value" if want[0] == "value" else "exc:" + "/".join(want[1]))
+            is_free = want[0] == "free"
+            ck = rc + "|" + ("free" if is_free else "value" if want[0] == "value" else "exc:" + want[1][0])
             cells[ck] = cells.get(ck, 0) + 1
             for cfg, fn in fns:
                 got = _call(fn, args)
+                if san_path and cfg == "san":
+                    try:
+                        grown = os.stat(san_path).st_size > san_pos[0]
+                    except OSError:
+                        grown = False
+                    if grown:
+                        text, san_pos[0] = _san_new_text(san_path, san_pos[0])
+                        n_san += 1
+                        w = witness(args, exp, want, got, cfg)
+                        w["report"] = text[:3000]
+                        w["kinds"] = san_kinds(text)
+                        w["mechanism"] = g.mechanism(spec, args)
+                        out["san"].append(w)
+                if is_free:
+                    free += 1
+                    continue
                 evals += 1
                 if want[0] == "value":
                     ok = got[0] == "v" and same(got[1], want[1])
@@ -167,15 +196,23 @@ def drive(specs: list[dict[str, Any]], source: str, builds: dict[str, list[str]]
                     n = seen_keys.get(key, 0)
                     seen_keys[key] = n + 1
                     if n < max_witness:
-                        out["mismatches"].append({
-                            "key": key, "function": name, "config": cfg, "args": [_jsonable(a) for a in args],
-                            "args_repr": [repr(a) for a in args], "interpreter": [exp[0], _jsonable(exp[1]), repr(exp[1])],
-                            "demanded": [want[0], _jsonable(want[1]), repr(want[1])],
-                            "compiled": [got[0], _jsonable(got[1]), repr(got[1])]})
+                        w = witness(args, exp, want, got, cfg)
+                        w["key"] = key
+                        out["mismatches"].append(w)
+                elif len(out["samples"]) < 2 and (evals % 97 == 1):
+                    out["samples"].append(witness(args, exp, want, got, cfg))
 
+        if explicit is not None:
+            for reprs in explicit:
+                one(_parse_args(reprs))
         if boundary:
-            for args in g.iter_boundary(spec):
-                one(args)
+            if thin <= 1:
+                for args in g.iter_boundary(spec):
+                    one(args)
+            else:
+                for i, args in enumerate(g.iter_boundary(spec)):
+                    if (i * 7 + i // 101) % thin == 0:
+                        one(args)
         if n_random and pt:
             r = common.rng_for("C15", "random-operands", name.split("_", 1)[1], tag)
             for _ in range(n_random):
@@ -183,10 +220,8 @@ def drive(specs: list[dict[str, Any]], source: str, builds: dict[str, list[str]]
         st: dict[str, Any] = {"evals": evals, "free": free, "skipped": skipped, "cells": cells}
         if seen_keys:
             st["keys"] = seen_keys
-        if san_path:
-            text, san_pos = _san_new_text(san_path, san_pos)
-            if text:
-                out["san"].append({"function": name, "text": text[:4000]})
+        if n_san:
+            st["san_reports"] = n_san
         out["funcs"][name] = st
     if marker:
         with open(marker, "w") as f:
@@ -242,7 +277,8 @@ def san_kinds(text: str) -> list[str]:
     """Normalised UBSan/ASan report kinds (numbers and type names abstracted) found in a log fragment."""
     kinds = []
     for m in SAN_RE.finditer(text):
-        msg = re.sub(r"-?\d+(\.\d+)?(e[+-]?\d+)?", "N", m.group(1))
+        msg = re.sub(r"\(aka '[^']*'\)", "", m.group(1))
+        msg = re.sub(r"-?\d+(\.\d+)?(e[+-]?\d+)?", "N", msg)
         msg = re.sub(r"'[^']*'", "T", msg)
         kinds.append("ubsan:" + re.sub(r"[^A-Za-z]+", "-", msg).strip("-")[:60])
     for m in re.finditer(r"ERROR: AddressSanitizer: ([a-zA-Z-]+)", text):
